@@ -376,10 +376,25 @@ Definition head_of (s : bytes) : list byte := match s with b :: _ => [b] | [] =>
 Definition heads (l : list bytes) : list byte := flat_map head_of l.
 Definition is_head (hs : list byte) (b : byte) : bool := existsb (Byte.eqb b) hs.
 
-(* escape: the release character goes before every byte that starts a delimiter or the release
-   character (whether or not the rest of that delimiter follows) *)
-Definition escape (hs : list byte) (rel : bytes) (d : bytes) : bytes :=
+(* escape, byte-wise: the release character goes before every byte that starts a delimiter or the
+   release character.  Adequate when those first bytes are ASCII (the ASCII corollaries). *)
+Definition escape_b (hs : list byte) (rel : bytes) (d : bytes) : bytes :=
   flat_map (fun b => if is_head hs b then rel ++ [b] else [b]) d.
+
+(* escape, rune-wise (what the generator does): d is cut into UTF-8 sequences the way Go decodes
+   it ([explode]: an undecodable byte is a sequence of its own); the release character goes
+   before every decodable rune other than U+FFFD whose first byte starts a delimiter or the
+   release character.  (ByteUnescape gives up at a release character followed by an undecodable
+   byte or U+FFFD, so those are never escaped.) *)
+Definition escapable (hs : list byte) (u : bytes) : bool :=
+  match u with
+  | [] => false
+  | b :: _ => negb (N.eqb (fst (decode_rune u)) RuneError) && is_head hs b
+  end.
+Definition enc_units (hs : list byte) (rel : bytes) (us : list bytes) : bytes :=
+  flat_map (fun u => (if escapable hs u then rel else []) ++ u) us.
+Definition escape (hs : list byte) (rel : bytes) (d : bytes) : bytes :=
+  enc_units hs rel (explode d).
 
 Fixpoint join (sep : bytes) (l : list bytes) : bytes :=
   match l with
